@@ -48,7 +48,7 @@ def units(tier):
     u += [{"name": f"mj-{n}", "timeout": to} for n in (MUJOCO_QUICK if quick else MUJOCO_ALL[::-1])]
     u += [{"name": f"finite{i}", "timeout": to} for i in range(2 if quick else 4)]
     u += [{"name": f"cc-{n}", "timeout": to} for n in CLASSIC]
-    u += [{"name": "gym-adapter", "timeout": to}]
+    u += [{"name": "gym-adapter", "timeout": to}, {"name": "lerax2gym", "timeout": to}]
     return u
 
 
@@ -1167,7 +1167,83 @@ def u_gym_adapter(ctx):
     ctx.require("gym_adapter_episode_ends", 5)
 
 
+def u_lerax2gym(ctx):
+    """Gym-style step of a lerax stack driven through LeraxToGymEnv (anchor compatibility/gym.py), whose PRNG key
+    is hidden adapter state: every step is judged against the stack's own functional components from the state
+    the adapter held; across many episode boundaries without an explicit reset() the states the adapter
+    restarts from must be fresh draws (pairwise distinct for continuous initial laws), as must repeated
+    seedless reset() calls."""
+    from lerax.compatibility.gym import LeraxToGymEnv
+    from lerax.env.classic_control import Acrobot, CartPole, MountainCar, Pendulum
+    from lerax.wrapper import ClipAction, TimeLimit
+    from vlib.common import digest
+
+    stacks = [("CartPole", CartPole(), "corner"), ("Pendulum|TimeLimit(5)", TimeLimit(Pendulum(), 5), "random"),
+              ("MountainCar|TimeLimit(4)", TimeLimit(MountainCar(), 4), "random"),
+              ("Pendulum|ClipAction>TimeLimit(3)", TimeLimit(ClipAction(Pendulum()), 3), "random"),
+              ("Acrobot|TimeLimit(6)>TimeLimit(9)", TimeLimit(TimeLimit(Acrobot(), 6), 9), "random")][: ctx.n(4, 5)]
+    for tag, env, mode in stacks:
+        rig = Rig(ctx, "LeraxToGymEnv:" + tag, env)
+        g = LeraxToGymEnv(env)
+        seed = int(ctx.rng.integers(0, 2**30))
+        obs, _ = g.reset(seed=seed)
+        det0 = rig.where(call="adapter.reset", seed=seed)
+        rig._judge_fresh(g.state, "adapter-reset", det0)
+        m = _cmp(obs, rig.comps(env, g.state, rig.any_action(), g.state)["obs_r"])
+        if m is not None:
+            ctx.violation("adapter-reset-obs-not-of-returned-state", dict(det0, mismatch=m))
+        ends, want_ends = [], ctx.n(24, 80)
+        i = 0
+        while len(ends) < want_ends and i < ctx.n(1500, 6000):
+            state = g.state
+            a = rig.any_action("const0" if mode == "corner" else "random")  # constant push ends CartPole episodes soon
+            obs, r, term, trunc, _ = g.step(np.asarray(a))
+            ns = g.state
+            c = rig.comps(env, state, a, ns)
+            c_term, c_trunc = bool(c["term"]), bool(c["trunc"])
+            ended = c_term or c_trunc
+            det = rig.where(i=i, action=np.asarray(a), flags_got=[term, trunc], flags_want=[c_term, c_trunc],
+                            state_fingerprint=np.asarray(rig.fp(_state_layers(state)[-1])))
+            ctx.case({"env": rig.tag, "i": i, "h": digest(np.asarray(rig.fp(_state_layers(state)[-1])), np.asarray(a))},
+                     nontrivial=ended, cls=f"lerax2gym/{tag}/{'end' if ended else 'continue'}")
+            ctx.monitor("adapter_steps_judged")
+            if not abs(float(r) - float(c["r"])) <= ATOL + RTOL * abs(float(c["r"])):
+                ctx.violation("adapter-step-reward-not-of-this-transition", dict(det, got=float(r), want=float(c["r"])))
+            for which, gt, w in (("terminal", term, c_term), ("truncate", trunc, c_trunc)):
+                if bool(gt) != w:
+                    if _flag_stable(ctx, env, c["nxt"], which, w):
+                        ctx.violation(f"adapter-step-{which}-flag-wrong", dict(det, got=bool(gt), want=w))
+                    else:
+                        ctx.monitor("ambiguous_flag_cases_excluded")
+            if not ended:
+                m = _cmp(ns, c["nxt"]) or _cmp(obs, c["obs_n"])
+                if m is not None:
+                    ctx.violation("adapter-continuing-step-not-successor", dict(det, mismatch=m))
+            else:
+                ctx.monitor("adapter_boundary_steps_judged")
+                rig._judge_fresh(ns, "adapter-ending-step", det)
+                m = _cmp(obs, c["obs_r"])
+                if m is not None:
+                    ctx.violation("adapter-ending-step-obs-not-of-returned-state", dict(det, mismatch=m))
+                ends.append(digest(np.asarray(rig.fp(_state_layers(ns)[-1]))))
+            i += 1
+        if len(ends) >= 16:
+            rig._judge_distinct(ends, "adapter-auto-reset-states-not-freshly-drawn",
+                                "states LeraxToGymEnv restarts from at successive episode ends (no explicit reset)")
+            ctx.monitor("adapter_auto_reset_sets_judged")
+        fps = []
+        for _ in range(ctx.n(24, 64)):
+            g.reset()
+            fps.append(digest(np.asarray(rig.fp(_state_layers(g.state)[-1]))))
+        rig._judge_distinct(fps, "adapter-seedless-resets-not-freshly-drawn", "successive seedless LeraxToGymEnv.reset() calls")
+    ctx.require("adapter_steps_judged", 200)
+    ctx.require("adapter_boundary_steps_judged", 40)
+    ctx.require("adapter_auto_reset_sets_judged", 3)
+
+
 def run_unit(name, ctx):
+    if name == "lerax2gym":
+        return u_lerax2gym(ctx)
     if name == "gym-adapter":
         return u_gym_adapter(ctx)
     if name.startswith("finite"):
